@@ -321,7 +321,22 @@ FRAMES = {
     'fuzzy-join': [((0.0, 0.0, 1.0), (1.0, 0.0, 1.0), 4), ((1.0, 0.0001, 1.0), (1.0, 1.0, 1.3), 4)],
     'just-apart': [((0.0, 0.0, 1.0), (1.0, 0.0, 1.0), 4), ((1.0, 0.0005, 1.0), (1.0, 1.0, 1.3), 4)],
     'grounded': [((0.3, 0.2, 0.0), (0.5, 0.1, 1.0), 4), ((0.5, 0.1, 1.0), (1.5, 0.3, 1.1), 4), ((2.0, 0.0, 0.0001), (2.0, 0.5, 1.0), 4)],
+    # free space: a junction 0.0002 m above the height 0 (closer than 1/1000 segment: over ground it would count as grounded)
+    'low-junction': [((0.0, 0.0, 1.0), (1.0, 0.0, 0.0002), 4), ((1.0, 0.0, 0.0002), (1.8, -0.3, 1.0), 4)],
 }
+
+
+def _const_of(x):
+    """float if the term is a constant (after simplification), else None"""
+    if not symx.is_sym(x):
+        return float(x)
+    x = SR.lift(x)
+    if getattr(x, 'd', None) is not None:
+        return None
+    n = z3.simplify(x.n)
+    if z3.is_rational_value(n) or z3.is_algebraic_value(n):
+        return float(n.as_fraction()) if z3.is_rational_value(n) else None
+    return None
 
 
 def topology(ck, sh, mm, fname, kind):
@@ -352,12 +367,21 @@ def topology(ck, sh, mm, fname, kind):
             for p1, p2, n in frame:
                 geo.append(M.Wire(n, *f(p1), *f(p2), 0.002 * s))
             m = M.Mininec(F0, geo, media=[M.Medium(0, 0)] if gnd else None)
-        return dict(inputs=inp, n=len(m.pulses), ground=[tuple(bool(x) for x in g.is_ground) for g in m.geo])
+        shape = None
+        if kind == 'translate':
+            # where every pulse sits relative to the translation: a constant vector, whatever the translation is
+            tv = list(inp['t']) + ([0.0] if gnd else [])
+            shape = []
+            for p in m.pulses:
+                for x, v in zip(p.point, tv):
+                    shape.append(x - v)
+        return dict(inputs=inp, n=len(m.pulses), ground=[tuple(bool(x) for x in g.is_ground) for g in m.geo], shape=shape)
 
     paths = symx.explore(fn, max_paths=40, query_timeout_ms=10000 if ck.tier == 'quick' else 60000, sqrt_mode='fresh')
     ck.account(paths)
     name = 'topology-%s-%s' % (fname, kind)
     outcomes = {}
+    forced_model = {}
     for p in paths:
         if p.exc is not None:
             key = 'exception %s' % type(p.exc).__name__
@@ -370,7 +394,43 @@ def topology(ck, sh, mm, fname, kind):
         ck.queries += 1
         if r == 'unsat':
             continue
-        outcomes.setdefault(key, []).append((p, r, s_.model() if r == 'sat' else None))
+        if p.exc is None and p.value.get('shape') and r == 'sat':
+            # where the pulses sit relative to the translation: the values in one model, and the question whether any other value of the
+            # translation on this path gives other ones
+            mdl = s_.model()
+            vals = [core.model_value(mdl, x) if symx.is_sym(x) else float(x) for x in p.value['shape']]
+            s2 = z3.Solver()
+            s2.set('timeout', 20000)
+            s2.add(p.pc + p.axioms)
+            dif = []
+            for x, v in zip(p.value['shape'], vals):
+                if symx.is_sym(x):
+                    d = SR.lift(x) - float(v)
+                    dif += [(d > 1e-9).t, (d < -1e-9).t]
+            s2.add(z3.Or(*dif) if dif else z3.BoolVal(False))
+            r2 = str(s2.check())
+            ck.queries += 1
+            if r2 == 'sat':
+                # the value of the translation that moves a pulse furthest from its place (coarse search: the consequence for the
+                # impedance is what the replay evaluates)
+                best = s2.model()
+                for thr in (1e-3, 5e-4, 2e-4, 1e-4, 1e-5):
+                    s3 = z3.Solver()
+                    s3.set('timeout', 20000)
+                    s3.add(p.pc + p.axioms)
+                    big = []
+                    for x, v in zip(p.value['shape'], vals):
+                        if symx.is_sym(x):
+                            d = SR.lift(x) - float(v)
+                            big += [(d > thr).t, (d < -thr).t]
+                    s3.add(z3.Or(*big))
+                    ck.queries += 1
+                    if str(s3.check()) == 'sat':
+                        best = s3.model()
+                        break
+                forced_model[id(p)] = best
+            key += ' pulse-points=' + ('fixed:%s' % (tuple(round(float(v), 7) for v in vals),) if r2 == 'unsat' else 'depend-on-the-translation' if r2 == 'sat' else 'undecided')
+        outcomes.setdefault(key, []).append((p, r, forced_model.get(id(p)) or (s_.model() if r == 'sat' else None)))
     ck.twin(name, len(outcomes) >= 1)
     if len(outcomes) == 1 and not paths.truncated:
         ck.record(name + '/one outcome for every value of the parameter', 'discharged',
@@ -414,13 +474,21 @@ def replay_topology(mm, fname, kind, concs):
             m = mm.Mininec(F0 / s, [mm.Wire(n, *f(p1), *f(p2), 0.002 * s) for p1, p2, n in frame], media=[mm.Medium(0, 0)] if gnd else None)
             m.register_source(mm.Excitation(1.0), 1)
             m.compute()
-            out = 'pulses=%d Z=%.4g%+.4gj' % (len(m.pulses), m.sources[0].impedance.real, m.sources[0].impedance.imag)
+            out = 'pulses=%d Z=%.7g%+.7gj' % (len(m.pulses), m.sources[0].impedance.real, m.sources[0].impedance.imag)
         except Exception as e:
             out = 'exception %s' % type(e).__name__
         seen[out] = c
     if len({k.split()[0] for k in seen}) <= 1:
-        return None
-    return ('C05:topology:%s:%s' % (kind, fname), 'frame %s: which wire ends are joined / grounded depends on the %s: %s'
+        # same number of unknowns everywhere: the property's sentence on the impedances (5e-4)
+        zs = []
+        for k in seen:
+            try:
+                zs.append(complex(k.split('Z=')[1]))
+            except (IndexError, ValueError):
+                return None
+        if all(abs(z - zs[0]) <= 5e-4 * abs(zs[0]) for z in zs):
+            return None
+    return ('C05:topology:%s:%s' % (kind, fname), 'frame %s: which wire ends are joined / grounded / where the pulses sit depends on the %s: %s'
             % (fname, kind, {k: v for k, v in seen.items()}), dict(kind='topology', frame=fname, by=kind))
 
 
@@ -432,7 +500,7 @@ def main(args):
                  ('fill_invariance', ('G9', 'z-far')), ('fill_invariance', ('G8', 'z-right')), ('fill_invariance', ('G28', 'z-quarter')), ('fill_invariance', ('G11', 'far-generic')), ('fill_invariance', ('G21', 'right-angles')), ('fill_invariance', ('G2', 'two-scales')), ('fill_invariance', ('G2', 'z-only', 2)),
                  ('far_field', ('G2', 'z-only')), ('far_field', ('G9', 'z-far')), ('mixed_tag', ('G2',)), ('mixed_tag', ('G5',))]
         parts += [('topology', (f, k)) for f in ('near-miss', 'fuzzy-join', 'just-apart', 'grounded') for k in ('scale',)]
-        parts += [('topology', ('fuzzy-join', 'translate')), ('topology', ('grounded', 'translate')), ('topology', ('just-apart', 'rotate'))]
+        parts += [('topology', ('fuzzy-join', 'translate')), ('topology', ('grounded', 'translate')), ('topology', ('just-apart', 'rotate')), ('topology', ('low-junction', 'translate')), ('topology', ('low-junction', 'scale'))]
     else:
         parts = [('fill_invariance', (g, mv)) for g in ('G1', 'G2', 'G3', 'G4', 'G5', 'G6', 'G11') for mv in MOVES_FREE]
         parts += [('fill_invariance', (g, mv)) for g in ('G7', 'G8', 'G9', 'G10', 'G14', 'G16', 'G28') for mv in MOVES_GND]
